@@ -1,19 +1,44 @@
-(* C08 - Proof verification never accepts a false statement (path proofs; multi-proofs follow). *)
-From Nomt Require Import Base Hash Trie Result PathProof Base_proofs Trie_proofs PathProof_proofs.
+(* C08 - Proof verification never accepts a false statement (path proofs and multi-proofs). *)
+From Coq Require Import List.
+From Nomt Require Import Base Hash Trie Result PathProof BuildTrie MultiProof MultiUpdate
+     Base_proofs Trie_proofs PathProof_proofs MultiProof_proofs.
 
 (* For an ARBITRARY proof object p and key path kp: if it verifies against the root of S then
    every statement it confirms is true of S.  Assumes only that the hasher is collision free and
    labels node kinds correctly. *)
 Theorem C08_path_sound : forall (H : Hasher), HasherOK H -> HasherCF H ->
   forall n S (p : path_proof H) kp vp, wf n S ->
-  verify H p kp (root_n H n S) = Ok vp ->
+  PathProof.verify H p kp (root_n H n S) = Ok vp ->
   forall k, length k = n ->
-    (forall v, confirm_value H vp k v = Ok true -> get S k = Some v) /\
-    (forall v, confirm_value H vp k v = Ok false -> get S k <> Some v) /\
-    (confirm_nonexistence H vp k = Ok true -> get S k = None) /\
-    (confirm_nonexistence H vp k = Ok false -> get S k <> None).
+    (forall v, PathProof.confirm_value H vp k v = Ok true -> get S k = Some v) /\
+    (forall v, PathProof.confirm_value H vp k v = Ok false -> get S k <> Some v) /\
+    (PathProof.confirm_nonexistence H vp k = Ok true -> get S k = None) /\
+    (PathProof.confirm_nonexistence H vp k = Ok false -> get S k <> None).
 Proof. exact PathProof_proofs.path_sound. Qed.
 Print Assumptions C08_path_sound.
+
+(* The same for an ARBITRARY multi-proof object: if it verifies against the root of S, every
+   terminal it carries is a real terminal of the trie of S at the claimed depth ... *)
+Theorem C08_multi_sound_terminals : forall (H : Hasher), HasherOK H -> HasherCF H ->
+  forall n S (mp : multi_proof H) v,
+  MultiProof.verify H mp (root_n H n S) = Ok v ->
+  forall t, In t (vmp_inner v) ->
+    descend (mk n 0 S) (firstn (vm_depth t) (vpath t)) = Some (terminal_trie (vm_terminal t)) /\
+    In (firstn (vm_depth t) (vpath t), as_leaf_option (vm_terminal t)) (terminals (mk n 0 S) []).
+Proof. exact MultiProof_proofs.multi_sound_terminals. Qed.
+Print Assumptions C08_multi_sound_terminals.
+
+(* ... and every statement it confirms is true of S *)
+Theorem C08_multi_sound : forall (H : Hasher), HasherOK H -> HasherCF H ->
+  forall n S (mp : multi_proof H) v, wf n S ->
+  MultiProof.verify H mp (root_n H n S) = Ok v ->
+  forall k, length k = n ->
+    (forall x, MultiProof.confirm_value H v (k, x) = Ok true -> get S k = Some x) /\
+    (forall x, MultiProof.confirm_value H v (k, x) = Ok false -> get S k <> Some x) /\
+    (MultiProof.confirm_nonexistence H v k = Ok true -> get S k = None) /\
+    (MultiProof.confirm_nonexistence H v k = Ok false -> get S k <> None).
+Proof. exact MultiProof_proofs.multi_sound. Qed.
+Print Assumptions C08_multi_sound.
 
 (* the hypotheses are satisfiable: the free term algebra is such a hasher *)
 Example C08_hasher_exists : HasherOK FreeH /\ HasherCF FreeH.
